@@ -211,6 +211,24 @@ def h_paste_near_integer(eps, mx):
 
 
 
+def h_paste_caller_stol(k, eps, stol, mx=1):
+    """the caller widens the scale tolerance (stol above the default 1e-3) and the scale sits
+    between the two tolerances below an integer: whatever the planner decides, its answers agree
+    with each other -- when it says paste, the source region is read_shrink x the destination region"""
+    ov = ovm()
+    kk = F(k) + F(eps)
+    src, dst, L, t, (Nsy, Nsx, Ndy, Ndx) = mk_pair(kk, kk, mx, 1, None, bound=True, pin="y:aligned")
+    rr = ov.compute_reproject_roi(src, dst, stol=rconst(F(stol)))
+    if not rr.paste_ok:
+        return  # refusing is always allowed
+    rs = _rs(rr)
+    (sy_, sx_), (dy_, dx_) = rr.roi_src, rr.roi_dst
+    prove("paste:source_region_is_read_shrink_times_the_destination_region_x", sx_.stop - sx_.start == rs * (dx_.stop - dx_.start), when=dx_.stop > dx_.start)
+    prove("paste:source_region_is_read_shrink_times_the_destination_region_y", sy_.stop - sy_.start == rs * (dy_.stop - dy_.start), when=dy_.stop > dy_.start)
+    # and the read-shrink factor is within the stated tolerance of the scale
+    prove("paste:read_shrink_is_the_scale_to_within_stol", abs(rs - kk) <= F(stol) * rs)
+
+
 def setup_warp():
     setup()
     if symx.concrete_mode():
@@ -343,6 +361,9 @@ OBLIGATIONS = [
     Ob("P5_near_integer_scale", h_paste_near_integer, fixed(dict(eps="9/10000", mx=1), dict(eps="-1/2000", mx=1), dict(eps="1/4000", mx=-1)),
        descr="relative scale near 1 inside the scale tolerance: if paste is reported, every pasted pixel is the nearest-neighbour pixel, for images of any width",
        functions=("odc.geo.overlap.compute_reproject_roi", "odc.geo.overlap._can_paste", "odc.geo.math.snap_affine"), bounds="eps from a grid (it multiplies the pixel index); x sizes, translation and probe pixel symbolic; y axis pinned aligned", setup=setup, timeout_ms=30000),
+    Ob("P7_caller_tolerance", h_paste_caller_stol, fixed(dict(k=2, eps="-1/200", stol="1/100"), dict(k=3, eps="-3/500", stol="1/100", mx=-1), dict(k=2, eps="1/300", stol="1/100"), dict(k=1, eps="1/200", stol="1/100")),
+       descr="a caller-supplied scale tolerance above the default, scale between the two tolerances of an integer: paste_ok, read_shrink and the two regions agree with each other (source region = read_shrink x destination region, read_shrink within stol of the scale)",
+       functions=("odc.geo.overlap.compute_reproject_roi", "odc.geo.overlap._can_paste", "odc.geo.overlap._pick_read_scale"), bounds="integer 1..3 plus an offset inside the caller's tolerance; x sizes, translation symbolic; y axis pinned aligned", setup=setup, timeout_ms=30000),
     Ob("P6_warp_call", h_warp_call, fixed(*[dict(dtype=d, nd=n, nodata=m) for d in ("uint8", "int8", "bool", "float32") for n in (2, 3) for m in ("none", "zero", "value") if not (n == 3 and m == "none")]),
        descr="rio_reproject for every pixel type: one warp per 2-D plane, explicit nodata (zero included) handed on unchanged, missing nodata -> NaN for floats only, pixels left at nodata come back as that nodata through the int8 / bool detours",
        functions=("odc.geo.warp.rio_reproject", "odc.geo.warp._rio_reproject"), bounds="dtypes uint8/int8/bool/float32, 2-D and 3-D arrays, nodata none / zero / a value (symbolic real for floats)",
